@@ -348,6 +348,14 @@ class Interp:
             return m(self, list(args), dict(kwargs))
         symbolic = any(deep_sym(a) for a in args) or any(deep_sym(v) for v in kwargs.values())
         owner = getattr(f, "__self__", None)
+        if symbolic and isinstance(owner, str) and getattr(f, "__name__", "") == "join" and len(args) == 1:
+            out = TokStr()
+            for i, part in enumerate(list(args[0])):
+                if i:
+                    out = out.concat(owner)
+                out = out.concat(part)
+            c = out.concrete()
+            return c if c is not None else out
         if symbolic and owner is not None and not isinstance(owner, type):
             # storing symbolic values into model recorders / plain containers is just bookkeeping
             if isinstance(owner, _Recorder) or (type(owner) in (list, dict, set) and getattr(f, "__name__", "") in _CONTAINER_STORE):
@@ -1356,6 +1364,13 @@ def model_len(it, args, kwargs):
         return n if isinstance(n, int) else SInt(z3.simplify(n))
     if isinstance(x, AbsStr):
         return SInt(x.clen)
+    if isinstance(x, TokStr):
+        c = x.concrete()
+        if c is not None:
+            return len(c)
+        n = it.ctx.fresh_int("strlen")
+        it.ctx.assume(n >= sum(len(t.v) if t.kind == "lit" else 1 for t in x.toks))
+        return SInt(n)
     if isinstance(x, Obj) or is_sym(x):
         raise Unsupported("len of " + type(x).__name__)
     try:
@@ -1492,6 +1507,97 @@ def model_hasattr(it, args, kwargs):
         raise
 
 
+class KMatch:
+    def __init__(self, groups):
+        self._g = groups  # index 0 = whole match
+
+    def groups(self, default=None):
+        return tuple(default if g is None else g for g in self._g[1:])
+
+    def group(self, i=0):
+        return self._g[i]
+
+
+def _re_apply(fn_name):
+    import re as _re
+
+    def model(it, args, kwargs):
+        pat, s = args[0], args[1]
+        if is_sym(pat):
+            raise Unsupported("symbolic regular expression")
+        if not isinstance(s, TokStr):
+            return getattr(_re, fn_name)(*args, **kwargs)
+        nd = s.ndigits()
+        structures = []
+        for inst in ([7] * nd, [42] * nd, [90817] * nd, [0] * nd):
+            text = ""
+            spans = []  # (start, end, token index)
+            k = 0
+            for ti, t in enumerate(s.toks):
+                piece = t.v if t.kind == "lit" else str(inst[k])
+                if t.kind == "digits":
+                    k += 1
+                spans.append((len(text), len(text) + len(piece), ti))
+                text += piece
+            m = getattr(_re, fn_name)(pat, text, *args[2:], **kwargs)
+            if m is None:
+                structures.append(None)
+                continue
+            gs = []
+            for gi in range(0, (m.re.groups) + 1):
+                a, b = m.span(gi)
+                if a < 0:
+                    gs.append(None)
+                    continue
+                toks = []
+                for (x, y, ti) in spans:
+                    lo, hi = max(a, x), min(b, y)
+                    if lo >= hi:
+                        continue
+                    t = s.toks[ti]
+                    if t.kind == "digits":
+                        if (lo, hi) != (x, y):
+                            gs.append(("partial-digits",))
+                            break
+                        toks.append(("d", ti))
+                    else:
+                        toks.append(("l", ti, lo - x, hi - x))
+                else:
+                    gs.append(tuple(toks))
+            structures.append(tuple(gs))
+        if any(st != structures[0] for st in structures[1:]):
+            raise Unsupported("regex outcome depends on the digit values of a token string")
+        st = structures[0]
+        if st is None:
+            return None
+        groups = []
+        for g in st:
+            if g is None:
+                groups.append(None)
+                continue
+            if g == ("partial-digits",):
+                raise Unsupported("regex group splits a digits token")
+            toks = []
+            for e in g:
+                if e[0] == "d":
+                    toks.append(s.toks[e[1]])
+                else:
+                    toks.append(Tok("lit", s.toks[e[1]].v[e[2] : e[3]]))
+            ts = TokStr(toks)
+            c = ts.concrete()
+            groups.append(c if c is not None else ts)
+        return KMatch(groups)
+
+    return model
+
+
+def _install_re_models(models):
+    import re as _re
+
+    for n in ("match", "fullmatch", "search"):
+        models[getattr(_re, n)] = _re_apply(n)
+
+
 BASE_MODELS = {
     len: model_len,
     bytes: model_bytes,
@@ -1502,3 +1608,4 @@ BASE_MODELS = {
     getattr: model_getattr,
     hasattr: model_hasattr,
 }
+_install_re_models(BASE_MODELS)
